@@ -232,8 +232,13 @@ fn gen_case(target: &str, seed: u64, idx: u64, rt: &tokio::runtime::Runtime, dir
 		"mvt" if idx % 6 == 2 => { // a length field that announces far more than the tile holds
 			let t = crate::mvt::gen_tile_pub(rng); let mut b = crate::mvt::enc_tile(&t);
 			let ks: Vec<usize> = (0..b.len().saturating_sub(1)).filter(|i| matches!(b[*i], 0x0a | 0x12 | 0x1a | 0x22)).collect();
-			if let Some(k) = ks.get(rng.below(ks.len().max(1) as u64) as usize) { let bigs: [Vec<u8>; 3] = [vec![0xff, 0xff, 0xff, 0xff, 0x0f], vec![0xff, 0xff, 0xff, 0xff, 0xff, 0xff, 0xff, 0xff, 0x7f], vec![0x80, 0x80, 0x80, 0x80, 0x40]]; let big = rng.pick(&bigs).clone(); b.splice(k + 1..k + 2, big.iter().cloned()); }
+			if let Some(k) = ks.get(rng.below(ks.len().max(1) as u64) as usize) { let bigs: [Vec<u8>; 5] = [vec![0xff, 0xff, 0xff, 0xff, 0x0f], vec![0xff, 0xff, 0xff, 0xff, 0xff, 0xff, 0xff, 0xff, 0x7f], vec![0x80, 0x80, 0x80, 0x80, 0x40], vec![0xff, 0xff, 0xff, 0xff, 0xff, 0xff, 0xff, 0xff, 0xff, 0x01], vec![0xfe, 0xff, 0xff, 0xff, 0xff, 0xff, 0xff, 0xff, 0xff, 0x01]]; let big = rng.pick(&bigs).clone(); b.splice(k + 1..k + 2, big.iter().cloned()); }
 			Case { bytes: b, how: "huge length field".into(), coords: vec![] } }
+		"mvt" if idx % 6 == 3 => { // structurally sound tile whose tag ids do not fit its tables (odd count, index beyond the key or value table)
+			let mut t = crate::mvt::gen_tile_pub(rng);
+			for l in t.iter_mut() { let (nk, nv) = (l.keys.len() as u32, l.vals.len() as u32); for f in l.feats.iter_mut() { match rng.below(5) {
+				0 => f.tags.push(0), 1 => { f.tags.push(nk + rng.below(3) as u32); f.tags.push(0); } 2 => { f.tags.push(0); f.tags.push(nv + rng.below(3) as u32); } 3 => { f.tags = vec![u32::MAX, u32::MAX]; } _ => {} } } }
+			Case { bytes: crate::mvt::enc_tile(&t), how: "tag ids outside the layer's tables".into(), coords: vec![] } }
 		"mvt" => { let t = crate::mvt::gen_tile_pub(rng); let b = crate::mvt::enc_tile(&t); if idx % 6 == 0 { Case { bytes: b, how: "valid".into(), coords: vec![] } } else if idx % 6 == 1 { Case { bytes: { let n = rng.below(60) as usize; rng.bytes(n) }, how: "random bytes".into(), coords: vec![] } } else { Case { bytes: mutate_bytes(rng, b), how: "mutated".into(), coords: vec![] } } }
 		"versatiles" => {
 			let tiles = small_tiles(rng);
@@ -258,6 +263,19 @@ fn gen_case(target: &str, seed: u64, idx: u64, rt: &tokio::runtime::Runtime, dir
 }
 
 fn probes() -> Vec<TileCoord3> { let mut v = vec![]; for (z, x, y) in [(0u8, 0u32, 0u32), (1, 1, 1), (3, 1, 2), (5, 31, 31), (12, 5, 5), (2, 9, 9), (31, 0, 0)] { v.push(TileCoord3 { x, y, z }); } for id in 18..28 { let (z, x, y) = indep::id_tile(id); v.push(TileCoord3 { x, y, z }); } v }
+
+/// single-tile lookups (they return Result) through the vector-tile operators with the bytes as a source tile
+fn mvt_through_pipelines(b: &[u8], rt: &tokio::runtime::Runtime, dir: &std::path::Path) {
+	let csv = dir.join("data.csv"); std::fs::write(&csv, CSVS[0]).unwrap();
+	let mut rng = Rng::new(7); let good = crate::mvt::enc_tile(&crate::mvt::gen_tile_pub(&mut rng));
+	for (k, text) in [VPLS[5].replace("DATA", csv.to_str().unwrap()), format!("{} remove_non_matching=true", VPLS[5].replace("DATA", csv.to_str().unwrap())), "from_vectortiles_merged [ from_container filename=mem, from_container filename=mem2 ]".to_string(), "from_vectortiles_merged [ from_container filename=mem2, from_container filename=mem ]".to_string()].iter().enumerate() {
+		crate::memsrc::register("mem", Box::new(MemSource::new("mem", vec![((3, 1, 2), b.to_vec())], TileFormat::PBF, TileCompression::Uncompressed)));
+		if k >= 2 { crate::memsrc::register("mem2", Box::new(MemSource::new("mem2", vec![((3, 1, 2), good.clone())], TileFormat::PBF, TileCompression::Uncompressed))); }
+		let r = rt.block_on(async { crate::memsrc::factory().operation_from_vpl(text).await });
+		if let Ok(op) = &r { let _ = rt.block_on(op.get_tile_data(&TileCoord3 { x: 1, y: 2, z: 3 })); }
+		let _ = crate::memsrc::take("mem"); let _ = crate::memsrc::take("mem2");
+	}
+}
 
 /// runs the decoder(s) of `target` on the case: "ok" / "err" (panics unwind to the caller)
 fn execute(target: &str, case: &Case, rt: &tokio::runtime::Runtime, dir: &std::path::Path) -> &'static str {
@@ -284,7 +302,11 @@ fn execute(target: &str, case: &Case, rt: &tokio::runtime::Runtime, dir: &std::p
 			let _ = crate::memsrc::take("mem");
 			if r.is_ok() { "ok" } else { "err" }
 		}
-		"mvt" => match versatiles_geometry::vector_tile::VectorTile::from_blob(&Blob::from(b.clone())) { Ok(t) => { for l in &t.layers { let _ = l.to_features(); } let _ = t.to_blob(); "ok" } Err(_) => "err" },
+		"mvt" => { mvt_through_pipelines(b, rt, dir); match versatiles_geometry::vector_tile::VectorTile::from_blob(&Blob::from(b.clone())) { Ok(mut t) => { for l in &t.layers { let _ = l.to_features(); for f in &l.features { let _ = l.decode_tag_ids(&f.tag_ids); } } let _ = t.to_blob();
+			// the property-rewriting entry points (they return Result) used by vectortiles_update_properties and the merge
+			for l in t.layers.iter_mut() { let _ = l.filter_map_properties(|p| Some(p)); }
+			if let Ok(mut t2) = versatiles_geometry::vector_tile::VectorTile::from_blob(&Blob::from(b.clone())) { for l in t2.layers.iter_mut() { let _ = l.map_properties(|p| p); } }
+			let _ = t.to_blob(); "ok" } Err(_) => "err" } },
 		"versatiles" => match rt.block_on(VersaTilesReader::open_reader(Box::new(DataReaderBlob::from(b.clone())))) { Ok(r) => { lookups(&r); "ok" } Err(_) => "err" },
 		"pmtiles" => match rt.block_on(PMTilesReader::open_reader(Box::new(DataReaderBlob::from(b.clone())))) { Ok(r) => { lookups(&r); "ok" } Err(_) => "err" },
 		"mbtiles" | "tar" => { let p = dir.join(format!("open.{target}")); std::fs::write(&p, b).unwrap(); match rt.block_on(get_reader(p.to_str().unwrap())) { Ok(r) => { lookups(r.as_ref()); "ok" } Err(_) => "err" } }
